@@ -3,6 +3,7 @@
 import TaRs.Lemmas.Core.OnBalanceVolume
 import TaRs.Gen.OnBalanceVolume
 import TaRs.Lemmas.RsLemmas
+import TaRs.Lemmas.Total.OnBalanceVolume
 namespace TaRs.Gen.OnBalanceVolume
 open TaRs TaRs.Rs
 variable {F : Type} [Scalar F]
